@@ -1173,24 +1173,31 @@ func (p *PubSub) handleDeadPeers() {
 		q.Close()
 		delete(p.peers, pid)
 
-		connected := p.host.Network().Connectedness(pid) == network.Connected
-		if !connected {
+		// Is the writer going to be respawned? Only for a peer that is still
+		// connected and that we have not given up on.
+		respawn := p.host.Network().Connectedness(pid) == network.Connected
+		var backoffDelay time.Duration
+		if respawn {
+			var err error
+			backoffDelay, err = p.deadPeerBackoff.updateAndGet(pid)
+			if err != nil {
+				p.logger.Debug("error updating backoff", "err", err, "peer", pid)
+				respawn = false
+			}
+		}
+
+		if !respawn {
 			// What a peer told us about its subscriptions arrived on its own
 			// stream and stays valid while that stream lives; it is dropped in
-			// onClosedIncomingStream. Forgetting it here while the peer is still
-			// connected would lose its subscriptions for good: it has no reason
-			// to announce them again when only our outbound stream is replaced.
+			// onClosedIncomingStream. Forgetting it here while we are about to
+			// open a new stream to the peer would lose its subscriptions for
+			// good: it has no reason to announce them again when only our
+			// outbound stream is replaced.
 			p.clearPeerFromTopicsState(pid)
 		}
 		p.rt.OnClosedOutboundStream(pid)
 
-		if connected {
-			backoffDelay, err := p.deadPeerBackoff.updateAndGet(pid)
-			if err != nil {
-				p.logger.Debug("error updating backoff", "err", err, "peer", pid)
-				continue
-			}
-
+		if respawn {
 			// still connected, must be a duplicate connection being closed.
 			// we respawn the writer as we need to ensure there is a stream active
 			p.logger.Debug("peer declared dead but still connected; respawning writer", "peer", pid)
